@@ -17,6 +17,14 @@ def list_packages(project, root, filename):
     return sorted(r for r in project.list_packages(root))
 
 
+def parses(source):
+    try:
+        source.tree
+    except SyntaxError:
+        return False
+    return True
+
+
 def assist(project, source, position, filename=None, debug=False):
     source = Source(source, filename, position)
     ctx = EvalCtx(project)
@@ -24,7 +32,9 @@ def assist(project, source, position, filename=None, debug=False):
     line = source.lines[ln - 1][:col]
     # the identifier characters immediately left of the cursor
     prefix = re.search(r'\w*$', line).group(0)
-    if line.lstrip().startswith('from ') and ' import ' not in line:
+    if line.lstrip().startswith('from ') and ' import ' not in line and not parses(source):
+        # a half-typed 'from package.na' does not parse yet; a text that does
+        # parse is not guessed at ('raise X \\' / 'from err', 'yield from')
         iname = line.rpartition(' ')[2]
         package, sep, _ = iname.rpartition('.')
         if (not package or package.startswith('.')) and sep:
